@@ -1,5 +1,6 @@
 import UmProofs.BrokerSlotsPlanJ
 import UmProofs.BrokerViewPartG
+import UmProofs.BrokerResReach
 /-!
 # C01 — Every slot has exactly one owner in every broker view
 
@@ -65,6 +66,58 @@ theorem C01_partition_proxy (ops : List Op) (hb : ∀ k, PlanBound (run (ops.tak
   have hinv := cinv_run ops hb cl hmem
   obtain ⟨lc, hl, hlc, _⟩ := limitMigration_spec cl limit hinv
   exact proxyView_partition _ addr limit p cl lc hp hc hl hlc.1 hlc.2.1 hlc.2.2
+
+theorem nodup_of_nodup_flatMap {α β : Type} (f : α → List β) :
+    ∀ (l : List α), (l.flatMap f).Nodup → ∀ x ∈ l, (f x).Nodup
+  | [], _, x, hx => by cases hx
+  | a :: as, h, x, hx => by
+    rw [List.flatMap_cons] at h
+    have h' := List.nodup_append.mp h
+    rcases List.mem_cons.mp hx with rfl | hx
+    · exact h'.1
+    · exact nodup_of_nodup_flatMap f as h'.2.1 x hx
+
+theorem proxyAddrs_of_addrs (a b : Cluster) (h : a.chunks.map Chunk.addrs = b.chunks.map Chunk.addrs) :
+    a.proxyAddrs = b.proxyAddrs := by
+  unfold Cluster.proxyAddrs
+  have : ∀ (l1 l2 : List Chunk), l1.map Chunk.addrs = l2.map Chunk.addrs →
+      (l1.flatMap fun ch => [ch.proxy0, ch.proxy1]) = (l2.flatMap fun ch => [ch.proxy0, ch.proxy1]) := by
+    intro l1
+    induction l1 with
+    | nil => intro l2 h; cases l2 with
+      | nil => rfl
+      | cons _ _ => simp at h
+    | cons c cs ih =>
+      intro l2 h
+      cases l2 with
+      | nil => simp at h
+      | cons d ds =>
+        simp only [List.map_cons, List.cons.injEq] at h
+        have hcd : c.proxy0 = d.proxy0 ∧ c.proxy1 = d.proxy1 := by
+          have := h.1; unfold Chunk.addrs at this; simp at this; exact ⟨this.2.1.1, this.2.1.2⟩
+        simp only [List.flatMap_cons, hcd.1, hcd.2, ih ds h.2]
+  exact this _ _ h
+
+/-- **C01, all proxies together**: in every reachable state, under every migration limit, the
+local master ranges served to the proxies of a cluster — taken over all its proxies — own every
+slot exactly once (so the per-proxy queries are mutually consistent, not only each one
+internally). Uses C12's accounting invariant for the uniqueness of proxy addresses. -/
+theorem C01_union_over_proxies (ops : List Op) (hb : ∀ k, PlanBound (run (ops.take k)))
+    (name : String) (limit : Nat) (cl : Cluster) (hc : (run ops).findCluster name = some cl) :
+    ∃ lc, limitMigration cl limit = .ok lc ∧
+      (lc.proxyAddrs.flatMap fun a =>
+        ((proxyOfView a (viewP lc)).nodes.filter fun n => !n.replica).flatMap VNode.ownedSlots).Perm
+        (List.range SLOT_NUM) := by
+  have hmem := mem_of_findCluster _ _ _ hc
+  have hinv := cinv_run ops hb cl hmem
+  obtain ⟨lc, hl, hlc, _, _, _, _, haddrs⟩ := limitMigration_spec cl limit hinv
+  refine ⟨lc, hl, union_local_partition_cluster lc hlc.1 hlc.2.1 hlc.2.2 ?_⟩
+  have hres := resInv_reachable (reachable_run ops)
+  have hnd : cl.proxyAddrs.Nodup := by
+    have h3 := hres.2.2.1
+    exact nodup_of_nodup_flatMap _ _ h3 cl hmem
+  rw [proxyAddrs_of_addrs lc cl haddrs]
+  exact hnd
 
 /-- no served view query panics on a reachable state (`limit_migration`'s and
 `to_slot_range`'s `expect`s are unreachable) -/
